@@ -243,9 +243,35 @@ def gen_pool(r):
     attr_op = r.choice(["GELU", "GELU", "LEAKY_RELU", "SOFTMAX", "PRELU", "EXP", "LOG", "SQRT", "HARD_SWISH"])
     attr_shape = r.choice([(8, 8, 8), (4, 6, 16)])
     attr_q = [r.choice([0.02, 0.005, 0.002]), r.choice([-10, 0, 100])]  # fine output steps: the two GELU flavours differ by < 1e-3
+    share_alpha = r.choice([0.1, 0.2, 0.3, attr_q[0]])
     for k in range(r.choice([3, 4, 5])):
-        style = r.choice(["lut", "lut", "conv", "generated", "generated", "branchy", "branchy", "lut_attr", "lut_attr", "cpu_ops"])
-        if style == "cpu_ops":
+        style = r.choice(["lut", "lut", "conv", "generated", "generated", "branchy", "branchy", "lut_attr", "lut_attr", "cpu_ops", "scale_share", "scale_share"])
+        if style == "scale_share":
+            # different operators of different models reach the compiler's scale arithmetic with the SAME numbers (input scale, a second
+            # factor, output scale) - as tensor scales (float32), as attributes, as constants: whatever is memoised on such numbers must
+            # not depend on which operator asked first
+            H, W, C = attr_shape
+            def share_model(kind, two_inputs=False):
+                L = dict(op=kind, q=list(attr_q), seed=3, **{"in": [0]})
+                ins_ = [dict(shape=[1, H, W, C], dtype="int8", q=list(lut_q))]
+                if kind == "LEAKY_RELU":
+                    L["alpha"] = share_alpha
+                elif kind in ("MUL", "ADD"):
+                    q2 = [r.choice([share_alpha, share_alpha, 1.0, lut_q[0]]), 0]
+                    if two_inputs:
+                        ins_.append(dict(shape=[1, H, W, C], dtype="int8", q=q2))
+                        L.update(act="NONE", **{"in": [0, 1]})
+                    else:
+                        L.update(act="NONE", const=dict(shape=r.choice([[1, 1, 1, C], [1, 1, 1, 1]]), q=q2), swap=r.random() < 0.3)
+                elif kind == "AVERAGE_POOL_2D":
+                    L.update(k=[2, 2], stride=[1, 1], pad="SAME", act="NONE")
+                return dict(name="net", inputs=ins_, layers=[L], outputs=[len(ins_)], dup_names=False)
+
+            # a pair: a table operator that evaluates the numbers in double precision while its table is built, and an elementwise
+            # operator whose registers are computed from the same numbers as stored (float32) tensor scales
+            pool.append(share_model(r.choice(["LEAKY_RELU", "LEAKY_RELU", "ABS", "QUANTIZE", "AVERAGE_POOL_2D"])))
+            rec = share_model(r.choice(["MUL", "MUL", "ADD"]), two_inputs=r.random() < 0.5)
+        elif style == "cpu_ops":
             # several different operators that stay on the CPU (third-party custom operators of the same version, builtins the NPU
             # does not implement): everything the writer emits about them - operator-code table, order, indices - has to be a
             # function of the network, not of the interpreter's hash seed
